@@ -38,6 +38,7 @@ canonicalised by the same function.
 Sweep: C14.1 / C14.2 / C14.5 every errno test in the managers and the network service tolerates exactly its benign code; C14.3 synchronize ends with the collector; C14.4 alloc hands out an address only after _alloc succeeded for it.
 Sixth round: C14.4 an address given back by the network service is also dropped from its remembered devices.
 Seventh round: C14.1 on EEXIST the routine gives up unless the recorded owner (the basename the link resolves to) equals the caller's owner parameter itself - no derived or partial comparison.
+Eighth round: C14.2 every unlink_all of the runtime package names the container as owner.
 Does NOT decide reachable-state invariants under concurrent owners.
 """
 
